@@ -11,12 +11,9 @@ import tempfile
 HERE = os.path.dirname(os.path.dirname(os.path.abspath(__file__)))
 
 
-def main():
-    only = sys.argv[1:]
+def one(d):
     rows = []
-    for d in sorted(os.listdir(os.path.join(HERE, "seeded"))):
-        if only and not any(d.startswith(o) for o in only):
-            continue
+    if True:
         sd = os.path.join(HERE, "seeded", d)
         meta = json.load(open(os.path.join(sd, "meta.json")))
         obsolete = meta.get("status") == "obsolete"
@@ -27,8 +24,7 @@ def main():
             r = subprocess.run(["patch", "-p1", "-s", "-f", "--no-backup-if-mismatch", "-i",
                                 os.path.join(sd, "patch.diff")], cwd=tmp, capture_output=True, text=True)
             if r.returncode != 0:
-                rows.append((d, "patch does not apply", ""))
-                continue
+                return (d, "patch does not apply", "")
             hits = []
             props = ["C%02d" % i for i in range(1, 21)]
             for p in props:
@@ -48,11 +44,19 @@ def main():
                 ("caught-by-other" if real else ("REFUSED(exit2)" if hits else "MISSED"))
             if obsolete:
                 verdict = "OBSOLETE:" + ("silent-ok" if not real else "ALARM")
-            rows.append((d, verdict, "; ".join(f"{p}: {m}" for p, m in hits)))
+            return (d, verdict, "; ".join(f"{p}: {m}" for p, m in hits))
         finally:
             shutil.rmtree(tmp, ignore_errors=True)
-    for d, v, h in rows:
-        print(f"{d:8} {v:16} {h}")
+
+
+def main():
+    from concurrent.futures import ProcessPoolExecutor
+    only = sys.argv[1:]
+    ds = [d for d in sorted(os.listdir(os.path.join(HERE, "seeded")))
+          if not only or any(d.startswith(o) for o in only)]
+    with ProcessPoolExecutor(max_workers=12) as ex:
+        for d, v, h in ex.map(one, ds):
+            print(f"{d:8} {v:16} {h}", flush=True)
 
 
 if __name__ == "__main__":
